@@ -399,6 +399,13 @@ def check_os_choices(ctx, chk):
         chk.undecided("C16.escalation-per-os", "os_choices is accepted only if it contains None or "
                       "every declared OS", "no `while True` ... `break` resampling loop found in "
                       "_generate_privescs; other loop shapes are not modelled", m.module.path)
+    elif not ok_exit and len(br) == 1 and any(q in f_show(F) for q in ("set(", "issubset",
+                                                                         "issuperset")):
+        # coverage written as a subset test between sets: `<=` on sets is not the order relation
+        # the comparison normal form assumes - not decoded
+        chk.undecided("C16.escalation-per-os", "os_choices is accepted only if it contains None or "
+                      "every declared OS", "the acceptance test compares sets (subset / superset): "
+                      + f_show(F)[:300], m.module.path)
     else:
         chk.ob("C16.escalation-per-os", "os_choices is accepted only if it contains None or every "
                "declared OS", ok_exit, f_show(F)[:300], m.module.path)
@@ -459,8 +466,13 @@ def check_firewall(ctx, chk):
         Ff = cn.conj(tuple(conds))
         HK, HV, E = "each(G.hosts)", "G.hosts[each(G.hosts)]", "G.exploits[each(G.exploits)]"
         want = A(f"{G_}_host_is_vulnerable_to_exploit(G, {HV}, {E})")
+        # ... or the predicate's own definition written out (C16.coverage decides that
+        # _host_is_vulnerable_to_exploit is exactly this)
+        want_def = f_and([A(f"{HV}.services[{E}['service']]"),
+                          f_or([A(" is ".join(sorted(["None", f"{E}['os']"]))),
+                                A(f"{HV}.os[{E}['os']]")])])
         recv = cn.show(ev.data["recv"])
-        ok = f_equiv(Ff, want) and loops == ["G.hosts", "G.exploits"] and \
+        ok = (f_equiv(Ff, want) or f_equiv(Ff, want_def)) and loops == ["G.hosts", "G.exploits"] and \
             cn.show(arg) == f"{E}['service']" and (f"[{HK}[0]]" in recv or f"({HK}[0], " in recv)
         detail = (f"{recv[-60:]} receives {cn.show(arg)[:80]} under {f_show(Ff)[:200]} in loops "
                   f"{loops}")
